@@ -313,7 +313,15 @@ def enc_tables():
     except enctables.Missing as ex:
         fail("encoder leaf table: %s" % ex)
 
+import kindtables
+def kind_tables():
+    try:
+        return kindtables.lean_lines(read("token/mod.rs"))
+    except ruletables.Missing as ex:
+        fail("token kind predicates: %s" % ex)
+
 files = {"Generated": "\n".join(core) + "\n",
+         "GeneratedKinds": module("GeneratedKinds", [("token kind predicates", kind_tables)]),
          "GeneratedEncode": module("GeneratedEncode", [("encoder leaf table", enc_tables)]),
          "GeneratedRule": module("GeneratedRule", [("branch-rule tables", rule_tables)]),
          "GeneratedChars": module("GeneratedChars", [("character tables", chars_tables)]),
